@@ -88,6 +88,9 @@ pub struct Case {
     /// standalone proof check (an accepted proof must leave nothing behind that helps a later one)
     #[serde(default)]
     pub warmup: bool,
+    /// entry-point sweep case (see sweep.rs); the other fields are ignored
+    #[serde(default)]
+    pub sweep: Option<crate::sweep::SweepCase>,
 }
 
 fn msgspec() -> impl Strategy<Value = MsgSpec> {
@@ -158,7 +161,7 @@ impl Property for C01 {
         "C01"
     }
     fn rule(&self) -> &'static str {
-        "proptest single cases: gateway config (domain, retention 0-3 or u64::MAX(-1), 1-3 initial sets, 0-4 honest rotations), signer sets of 1-8 keys with weights from {1, small, 2^64, u128::MAX - rest} and thresholds from {1, total, total-1, subset sums}, a signing subset (full / exactly the threshold subset / one short / random bitmask / prefix), a batch of 1-4 messages of which any subset may have been honestly approved in an earlier call, optionally right after accepted proofs by the same set, and at most one perturbation (digest component, per-signature corruption, declared-set tampering with or without re-signing, batch substitution, never-installed set); both validate_proof and approve_messages. Oracle: digest = own keccak(domain || keccak(ownXDR(set)) || keccak(ownXDR((kind,batch)))), acceptance = set installed and within retention and weight of verify_strict-valid signatures >= threshold. non-trivial = perturbation present, or signing subset not a prefix, or signed weight == threshold exactly; distinct by Debug hash"
+        "proptest single cases: gateway config (domain, retention 0-3 or u64::MAX(-1), 1-3 initial sets, 0-4 honest rotations), signer sets of 1-8 keys with weights from {1, small, 2^64, u128::MAX - rest} and thresholds from {1, total, total-1, subset sums}, a signing subset (full / exactly the threshold subset / one short / random bitmask / prefix), a batch of 1-4 messages of which any subset may have been honestly approved in an earlier call, optionally right after accepted proofs by the same set, and at most one perturbation (digest component, per-signature corruption, declared-set tampering with or without re-signing, batch substitution, never-installed set); both validate_proof and approve_messages. Oracle: digest = own keccak(domain || keccak(ownXDR(set)) || keccak(ownXDR((kind,batch)))), acceptance = set installed and within retention and weight of verify_strict-valid signatures >= threshold. non-trivial = perturbation present, or signing subset not a prefix, or signed weight == threshold exactly; distinct by Debug hash. A share of the random cases is an entry-point sweep (construction as described for C13: the exported functions of all shipped contracts read from the sources of the tree under test, a complete deployed system, pooled arguments - including well-formed signer sets nobody installed and proofs properly signed by the gateway's own signer set over digests that belong to no command -, every require_auth satisfied by the host's mock and recorded; entry points absent from the pinned inventory get 300 deterministic cases each); oracle: no call approves a message (status of pre-approved and fresh ids, message_approved events) since no valid proof for any approval exists in these cases; non-trivial = the call succeeded"
     }
     fn assumptions(&self) -> Vec<&'static str> {
         vec!["a proof whose valid signatures already reach the threshold but which also carries an invalid signature is unconstrained by the statement (Either)"]
@@ -167,6 +170,31 @@ impl Property for C01 {
         tier.pick(30000, 400000)
     }
     fn strategy(&self, _tier: Tier) -> BoxedStrategy<Case> {
+        let direct = direct_strategy();
+        match crate::sweep::strategy(crate::sweep::Rule::Proofless) {
+            Some(sw) => prop_oneof![9 => direct, 1 => (sw, direct_strategy()).prop_map(|(s, mut c)| {
+                c.sweep = Some(s);
+                c
+            })]
+            .boxed(),
+            None => direct,
+        }
+    }
+    fn fixed_cases(&self, _tier: Tier) -> Vec<Case> {
+        let blank = Case { domain: 0, retention: 0, initial: vec![], rotations: vec![], prover: 0, mask: MaskKind::Full, batch: vec![], perturb: Perturb::None, via_validate_proof: false, pre_approved: 0, warmup: false, sweep: None };
+        crate::sweep::fixed_cases(300).into_iter().map(|s| Case { sweep: Some(s), ..blank.clone() }).collect()
+    }
+
+    fn run(&self, case: &Case, cx: &mut Cx) -> Result<(), String> {
+        if let Some(sw) = &case.sweep {
+            return crate::sweep::run(sw, cx, crate::sweep::Rule::Proofless);
+        }
+        self.run_direct(case, cx)
+    }
+}
+
+fn direct_strategy() -> BoxedStrategy<Case> {
+    {
         (
             (any::<u8>(), 0u8..6, proptest::collection::vec(setgen(8), 1..4), proptest::collection::vec(setgen(8), 0..5)),
             (prop_oneof![3 => Just(0u16), 2 => any::<u16>()], maskkind(), proptest::collection::vec(msgspec(), 1..5), perturb(), any::<bool>(), prop_oneof![3 => Just(0u8), 1 => Just(0xffu8), 1 => any::<u8>()], prop_oneof![2 => Just(false), 1 => Just(true)]),
@@ -183,11 +211,14 @@ impl Property for C01 {
                 via_validate_proof: via,
                 pre_approved,
                 warmup,
+                sweep: None,
             })
             .boxed()
     }
+}
 
-    fn run(&self, case: &Case, cx: &mut Cx) -> Result<(), String> {
+impl C01 {
+    fn run_direct(&self, case: &Case, cx: &mut Cx) -> Result<(), String> {
         let env = new_env();
         let domain = [case.domain; 32];
         // all sets, distinct by nonce = position
